@@ -113,12 +113,35 @@ pub fn check_total(mk: &dyn Fn() -> Result<Interpreter, String>, acc: &mut Acc) 
     if end == "panic" {
         return out;
     }
+    // a finished interpreter that is asked again stays finished: no panic, no further state, stacks untouched
+    if end == "finished" {
+        let before = guard(|| it.state()).map(|s| (s.stack.clone(), s.alt_stack.clone())).unwrap_or_default();
+        acc.transitions += 1;
+        match guard(|| it.next().map(|r| r.is_ok())) {
+            Ok(None) | Ok(Some(false)) => {}
+            Ok(Some(true)) => acc.bump("next_after_completion_returned_a_state", 1),
+            Err(p) => out.push(Finding { key: "C16/run/kind=panic-after-completion".into(), detail: p }),
+        }
+        let after = guard(|| it.state()).map(|s| (s.stack.clone(), s.alt_stack.clone())).unwrap_or_default();
+        if after != before {
+            out.push(Finding { key: "C16/run/kind=stacks-changed-after-completion".into(), detail: format!("main={} alt={} became main={} alt={}", show_stack(&before.0), show_stack(&before.1), show_stack(&after.0), show_stack(&after.1)) });
+        }
+    }
     // second interpreter driven by run()
     let stepped_final = guard(|| it.state()).map(|s| (s.stack.clone(), s.alt_stack.clone())).unwrap_or_default();
     match guard(|| mk().map(|mut j| {
         let r = j.run();
         let st = j.state();
-        (r.is_ok(), st.stack.clone(), st.alt_stack.clone())
+        let first = (r.is_ok(), st.stack.clone(), st.alt_stack.clone());
+        // run() on an interpreter that already ran: same verdict class, same stacks, no panic
+        if first.0 {
+            let r2 = j.run();
+            let st2 = j.state();
+            if r2.is_ok() && (st2.stack != first.1 || st2.alt_stack != first.2) {
+                return (false, vec![b"second run() differs from the first".to_vec()], vec![]);
+            }
+        }
+        first
     })) {
         Ok(Ok((ok, s, a))) => {
             acc.transitions += 1;
@@ -517,6 +540,28 @@ pub fn spaces(tier: Tier) -> Vec<Space> {
             let mut bytes = rs::serialize(&[rs::minimal_push(t)]);
             bytes.extend_from_slice(&progs[c[1] as usize].1);
             let desc = || json!({"item_text": String::from_utf8_lossy(t), "item_hex": hex::encode(t), "then": progs[c[1] as usize].0});
+            check_script_bytes(&bytes, acc, case, &desc);
+        }));
+    }
+    // (e4) conditional grammar: every string of up to N symbols over {IF, NOTIF, ELSE, ENDIF, OP_0, OP_1, VERIFY, DUP, TOALTSTACK}
+    {
+        let syms: Vec<u8> = vec![0x63, 0x64, 0x67, 0x68, 0x00, 0x51, 0x69, 0x76, 0x6b];
+        let ns = syms.len() as u64;
+        let maxk: u32 = if thorough { 7 } else { 5 };
+        let mut offsets = vec![0u64];
+        for k in 0..=maxk {
+            offsets.push(offsets[k as usize] + ns.pow(k));
+        }
+        let total = *offsets.last().unwrap();
+        v.push(Space::new("cond-grammar", total, move |case, acc| {
+            let k = offsets.iter().rposition(|o| *o <= case.idx).unwrap();
+            let mut rem = case.idx - offsets[k];
+            let mut bytes = vec![0u8; k];
+            for i in (0..k).rev() {
+                bytes[i] = syms[(rem % ns) as usize];
+                rem /= ns;
+            }
+            let desc = || json!({"space": "cond-grammar"});
             check_script_bytes(&bytes, acc, case, &desc);
         }));
     }
